@@ -128,7 +128,7 @@ static struct {
 	int            pid;
 	/* file system */
 	char           fsRoot[1024]; size_t fsRootLen;
-	struct { int kind, cls; long a, b; int fired; } ff[MAXSMALL]; int nFf;
+	struct { int kind, cls; long a, b; int nth, fired; } ff[MAXSMALL]; int nFf;	/* nth: only the nth file of the class opened for writing (0 = any) */
 	/* memory supply */
 	struct { unsigned long call, n; } refuse[MAXSMALL]; int nRefuse;
 	struct { unsigned long call, pages; } foreign[MAXSMALL]; int nForeign;
@@ -275,9 +275,12 @@ static void planLoad(void)
 				P.ff[P.nFf].kind = k;
 				if (k == FF_MKDIRFAIL) { P.ff[P.nFf].cls = -1; P.ff[P.nFf].a = L(2); }
 				else {
+					int q = 4;
 					P.ff[P.nFf].cls = clsOfName(w[2]);
 					P.ff[P.nFf].a = L(3);
-					P.ff[P.nFf].b = nw > 4 ? L(4) : 0;
+					P.ff[P.nFf].b = 0;
+					if (nw > q && strcmp(w[q], "file")) { P.ff[P.nFf].b = L(q); q++; }
+					if (nw > q + 1 && !strcmp(w[q], "file")) P.ff[P.nFf].nth = (int) L(q + 1);
 				}
 				P.nFf++;
 			}
@@ -548,7 +551,8 @@ extern int __real_rename(const char *a, const char *b);
 extern int __real_mkdir(const char *path, mode_t mode);
 
 struct simFile {
-	int   fd, cls, wr;
+	int   fd, cls, wr, ord;	/* ord: this is the ord-th file of its class opened for writing */
+	unsigned long nwr;	/* write callbacks on this file */
 	long  pos;		/* current offset */
 	long  written;		/* bytes accepted so far on this open */
 	char  base[96];
@@ -596,11 +600,14 @@ static int inSandbox(const char *path, char *abs, size_t absLen)
 	       (abs[P.fsRootLen] == '/' || abs[P.fsRootLen] == 0);
 }
 
-static int ffFind(int kind, int cls)
+static unsigned long clsOpens[CLS_N];	/* files opened for writing per class */
+
+static int ffFind(int kind, int cls, int ord)
 {
 	int i;
 	for (i = 0; i < P.nFf; i++)
-		if (P.ff[i].kind == kind && (P.ff[i].cls == cls || P.ff[i].cls == -1)) return i;
+		if (P.ff[i].kind == kind && (P.ff[i].cls == cls || P.ff[i].cls == -1) &&
+		    (P.ff[i].nth == 0 || P.ff[i].nth == ord)) return i;
 	return -1;
 }
 
@@ -616,13 +623,14 @@ static ssize_t sfRead(void *c, char *buf, size_t n)
 static ssize_t sfWrite(void *c, const char *buf, size_t n)
 {
 	struct simFile *f = c;
-	unsigned long wno = ++clsWrites[f->cls];
+	unsigned long wno = ++clsWrites[f->cls];	/* write number within the class ... */
+	unsigned long fno = ++f->nwr;			/* ... and within this file (used when a fault names a file) */
 	size_t allow = n;
 	int i, err = 0;
 	ssize_t r;
 
 	nFsOp[2]++;
-	if ((i = ffFind(FF_CRASH, f->cls)) >= 0 && (unsigned long) P.ff[i].a == wno) {
+	if ((i = ffFind(FF_CRASH, f->cls, f->ord)) >= 0 && (unsigned long) P.ff[i].a == (P.ff[i].nth ? fno : wno)) {
 		size_t t = (size_t) P.ff[i].b < n ? (size_t) P.ff[i].b : n;
 		if (t) (void) !write(f->fd, buf, t);
 		simLog("W %s %ld %lu crash %lu\n", clsName[f->cls], f->pos, (unsigned long) n, (unsigned long) t);
@@ -630,13 +638,13 @@ static ssize_t sfWrite(void *c, const char *buf, size_t n)
 		simLogFlush();
 		_exit(137);
 	}
-	if ((i = ffFind(FF_EIO, f->cls)) >= 0 && (unsigned long) P.ff[i].a == wno) {
+	if ((i = ffFind(FF_EIO, f->cls, f->ord)) >= 0 && (unsigned long) P.ff[i].a == (P.ff[i].nth ? fno : wno)) {
 		allow = 0; err = EIO; P.ff[i].fired++;
 	}
 	/* Device full from byte B of the file on: what lies below B can be (over)written,
 	 * a write reaching beyond B is short (as the kernel does for a write straddling the
 	 * end of the free space) and later ones get nothing. */
-	if ((i = ffFind(FF_ENOSPC, f->cls)) >= 0 && f->pos + (long) n > P.ff[i].a) {
+	if ((i = ffFind(FF_ENOSPC, f->cls, f->ord)) >= 0 && f->pos + (long) n > P.ff[i].a) {
 		long room = P.ff[i].a - f->pos;
 		if (room < 0) room = 0;
 		if ((size_t) room < allow) allow = (size_t) room;
@@ -671,7 +679,7 @@ static int sfClose(void *c)
 	struct simFile *f = c;
 	int i, rc = 0, err = 0;
 	nFsOp[4]++;
-	if (f->wr && (i = ffFind(FF_CLOSEFAIL, f->cls)) >= 0) {
+	if (f->wr && (i = ffFind(FF_CLOSEFAIL, f->cls, f->ord)) >= 0) {
 		err = (int) P.ff[i].a; P.ff[i].fired++; nFaultFired++;
 	}
 	close(f->fd);
@@ -698,7 +706,8 @@ FILE *__wrap_fopen(const char *path, const char *mode)
 	cls = clsOfPath(abs);
 	wr = strchr(mode, 'w') || strchr(mode, 'a') || strchr(mode, '+');
 	nFsOp[0]++;
-	if (wr && (i = ffFind(FF_OPENFAIL, cls)) >= 0) {
+	if (wr) clsOpens[cls]++;
+	if (wr && (i = ffFind(FF_OPENFAIL, cls, (int) clsOpens[cls])) >= 0) {
 		P.ff[i].fired++; nFaultFired++;
 		simLog("O %s %s fail %d\n", clsName[cls], mode, (int) P.ff[i].a);
 		errno = (int) P.ff[i].a;
@@ -721,7 +730,7 @@ FILE *__wrap_fopen(const char *path, const char *mode)
 	}
 	f = malloc(sizeof *f);
 	if (!f) { close(fd); errno = ENOMEM; return 0; }
-	f->fd = fd; f->cls = cls; f->wr = wr; f->pos = 0; f->written = 0;
+	f->fd = fd; f->cls = cls; f->wr = wr; f->pos = 0; f->written = 0; f->nwr = 0; f->ord = wr ? (int) clsOpens[cls] : 0;
 	snprintf(f->base, sizeof f->base, "%s", baseName(abs));
 	if (fl & O_APPEND) f->pos = (long) lseek(fd, 0, SEEK_END);
 	fp = fopencookie(f, mode, io);
@@ -764,7 +773,7 @@ int __wrap_mkdir(const char *path, mode_t mode)
 	planLoad();
 	if (inSandbox(path, abs, sizeof abs)) {
 		nFsOp[7]++;
-		if ((i = ffFind(FF_MKDIRFAIL, -1)) >= 0) {
+		if ((i = ffFind(FF_MKDIRFAIL, -1, 0)) >= 0) {
 			P.ff[i].fired++; nFaultFired++;
 			simLog("M fail %d\n", (int) P.ff[i].a);
 			errno = (int) P.ff[i].a;
